@@ -6,7 +6,6 @@ import PyxModel.Extract.Wire
     (c14 <diagram> <name|none> <T|F>)                 -> (ok <schema>) | (error OoaOfOoaException)
     (c14-edit <diagram> <name|none> <T|F> (<edit>…))  -> (ok <extract d> <extract (applyEdits es d)>
                                                              <schemaEdits (resolveAll d es) (extract d)>)
-    (c14-sedit <schema> (<sedit>…))                   -> (ok <schemaEdits ses schema>)
 -/
 namespace Pyx.Driver.C14
 open Pyx Pyx.Sexp Pyx.Extract Pyx.Extract.Wire
@@ -31,10 +30,6 @@ def handle : List Sexp → Option Sexp
                 eSchema (schemaEdits (resolveAll d comp v es) s0)]
         | none => list [sym "error", sym "OoaOfOoaException"]
       | _, _, _, _ => bad)
-  | [sym "c14-sedit", s, es] =>
-    some (match dSchema s, dList dSEdit es with
-      | some s, some es => list [sym "ok", eSchema (schemaEdits es s)]
-      | _, _ => bad)
   | _ => none
 
 end Pyx.Driver.C14
